@@ -7,6 +7,8 @@
 
 package dispatcher
 
+import "net/url"
+
 // HarnessC04Termination: every request the gateway terminates itself gets the status that tells why (429 when
 // flow-controlled, 503 with Retry-After when the cluster is not proxied or has no ready endpoint) and is not forwarded,
 // not even partially; a forwarded request keeps method, path, query and end-to-end headers.
@@ -37,6 +39,96 @@ func HarnessC04Termination() {
 			vassert(o.fwdReqURL.RawQuery == "watch=1", "C04/query-changed")
 		}
 		vassert(len(o.fwdHeader["X-Keep"]) == 1 && o.fwdHeader["X-Keep"][0] == "v", "C04/end-to-end-header-lost")
+	}
+	vreach("end")
+}
+
+func c04PathByte(key string, i int) byte {
+	switch nondetRange(key, 0, 3, i) {
+	case 0:
+		return '/'
+	case 1:
+		return '.'
+	case 2:
+		return 'a'
+	}
+	return '%'
+}
+
+// HarnessC04LocationPath: the URL the dispatcher hands to the proxy handler - for every request path (dot segments,
+// doubled and trailing slashes, percent signs) within the bounds: scheme and host are those of the picked endpoint, the
+// path is the request's path byte for byte (the upstream must see what was authorized and routed), nothing else is set.
+// verif:bounds path = "/" + 0..4 (quick) / 5 (thorough) bytes from {'/', '.', 'a', '%'}; query fixed; both endpoints; collaborators all answer "go on"
+// verif:opt maxstrlen=8 unwind=40
+func HarnessC04LocationPath() {
+	n := nondetRange("pathLen", 0, vbound(4, 5))
+	pb := make([]byte, 0, 6)
+	pb = append(pb, '/')
+	for i := 0; i < n; i++ {
+		pb = append(pb, c04PathByte("pathByte", i))
+	}
+	path := string(pb)
+	ghostDispHappy = true
+	o := dispRunQ(path, "watch=1")
+	ghostDispHappy = false
+	vassert(o.forwardCalls == 1, "C04/request-not-forwarded")
+	loc := o.fwdLocation
+	vassert(loc != nil && o.fwdReqURL == loc, "C04/forwarded-request-not-addressed-to-the-built-location")
+	if loc == nil || o.endpoint == nil {
+		return
+	}
+	vassert(loc.Scheme == "https" && "https://"+loc.Host == o.endpoint.Endpoint, "C04/location-not-the-picked-endpoint")
+	vassert(loc.Path == path, "C04/path-changed")
+	vassert(loc.RawPath == "" && loc.Opaque == "" && loc.User == nil && loc.Fragment == "", "C04/location-carries-extra-url-parts")
+	vassert(loc.RawQuery == "watch=1", "C04/query-parameters-changed")
+	vreach("end")
+}
+
+// HarnessC04LocationQuery: the re-encoded query carries exactly the request's parameters (same keys, same value lists
+// in order, as net/url parses them), for every raw query within the bounds.
+// verif:bounds raw query 0..4 (quick) / 5 (thorough) bytes from {a, b, =, &, %, +}; path fixed; collaborators all answer "go on"
+// verif:opt maxstrlen=8 unwind=40
+func HarnessC04LocationQuery() {
+	m := nondetRange("queryLen", 0, vbound(4, 5))
+	qb := make([]byte, 0, 5)
+	for i := 0; i < m; i++ {
+		switch nondetRange("queryByte", 0, 5, i) {
+		case 0:
+			qb = append(qb, 'a')
+		case 1:
+			qb = append(qb, 'b')
+		case 2:
+			qb = append(qb, '=')
+		case 3:
+			qb = append(qb, '&')
+		case 4:
+			qb = append(qb, '%')
+		default:
+			qb = append(qb, '+')
+		}
+	}
+	rawQuery := string(qb)
+	ghostDispHappy = true
+	o := dispRunQ("/api/v1/pods", rawQuery)
+	ghostDispHappy = false
+	vassert(o.forwardCalls == 1, "C04/request-not-forwarded")
+	loc := o.fwdLocation
+	if loc == nil {
+		return
+	}
+	vassert(loc.Path == "/api/v1/pods", "C04/path-changed")
+	want, _ := url.ParseQuery(rawQuery)
+	got, err := url.ParseQuery(loc.RawQuery)
+	vassert(err == nil, "C04/re-encoded-query-does-not-parse")
+	vassert(len(got) == len(want), "C04/query-parameters-changed")
+	for k, vs := range want {
+		gs := got[k]
+		vassert(len(gs) == len(vs), "C04/query-parameters-changed")
+		if len(gs) == len(vs) {
+			for i := range vs {
+				vassert(gs[i] == vs[i], "C04/query-parameters-changed")
+			}
+		}
 	}
 	vreach("end")
 }
